@@ -3,6 +3,7 @@
   Part of the correspondence check, not of any theorem.
 -/
 import Mashu.Wire
+import Mashu.Tz
 open Lean
 
 namespace Mashu
@@ -19,8 +20,7 @@ def getCx (j : Json) : Cx :=
   { passLeaves := getLeaves j "pass_leaves", noCopyList := getB j "no_copy_list" false, noCopyDict := getB j "no_copy_dict" false, nailed := getB j "nailed" true, ntAsDict := getB j "nt_as_dict" false,
     fixK1 := getB j "fixK1" false, fixK2 := getB j "fixK2" false, fixK10 := getB j "fixK10" false }
 
-def dispatchCore (op : String) (j : Json) : Except String Json := do
-  let O := (← toOracleTable (j.getObjValD "oracle")).toOracle
+def coreWith (O : Oracle) (op : String) (j : Json) : Except String Json := do
   let ty ← toTy (j.getObjValD "ty")
   let cx := getCx j
   let fx : Fx := {}
@@ -41,9 +41,21 @@ def dispatchCore (op : String) (j : Json) : Except String Json := do
       | .error e => pure (Json.mkObj [("err", ofExc e)])
   | _ => throw s!"unknown op {op}"
 
+def dispatchCore (op : String) (j : Json) : Except String Json := do
+  let tbl ← toOracleTable (j.getObjValD "oracle")
+  let r1 ← coreWith (tbl.toOracle false) op j
+  let r2 ← coreWith (tbl.toOracle true) op j
+  if r1.compress == r2.compress then pure r1
+  else pure (Json.mkObj [("inconclusive", Json.bool true), ("strict", r1), ("lenient", r2)])
+
 def dispatch (j : Json) : Except String Json := do
   let op ← str (j.getObjValD "op")
   match op with
+  | "tzparse" => do
+      let s ← str (j.getObjValD "s")
+      match Mashu.Tz.parseTz s.toList with
+      | some m => pure (Json.mkObj [("minutes", Json.num (Lean.JsonNumber.fromInt m))])
+      | none => pure (Json.mkObj [("minutes", Json.null)])
   | "pack" | "unpack" | "roundtrip" | "conf" => dispatchCore op j
   | _ => throw s!"unknown op {op}"
 
